@@ -19,6 +19,35 @@ Definition default_for (r : row) (k : text) : option text := assoc k (r_defaults
 
 Definition py_slice_text (s : text) (a b : Z) : text := py_slice s a b.
 
+(* one pass of the loop body up to the call of from_components: the component values handed over *)
+Definition rnd_comps0 (r : row) (bank : option entry) (pins : list (text * text)) (bban : text) : list (text * text) :=
+  map (fun cr =>
+         let k := fst cr in
+         (k, match assoc k pins with
+             | Some v => v
+             | None =>
+               let from_bank := if text_eqb k k_bank
+                                then match bank with Some en => e_code en | None => [] end else [] in
+               match from_bank with
+               | _ :: _ => from_bank
+               | [] => match default_for r k with
+                       | Some dv => dv
+                       | None => py_slice bban (fst (snd cr)) (snd (snd cr))
+                       end
+               end
+             end)) (fc_ranges components r).
+Definition rnd_comps1 (r : row) (pins : list (text * text)) (comps0 : list (text * text)) : list (text * text) :=
+  let bank_code := get_val k_bank comps0 in
+  let bank_len := range_length (fc_rng components r k_bank) in
+  let branch_len := range_length (fc_rng components r k_branch) in
+  if negb (match assoc k_branch pins with Some _ => true | None => false end)
+     && Z.leb (bank_len + branch_len) (len bank_code)
+  then set_assoc k_branch (py_slice bank_code bank_len (bank_len + branch_len)) comps0
+  else comps0.
+Definition rnd_comps2 (r : row) (bank : option entry) (pins : list (text * text)) (d : text) : list (text * text) :=
+  map (fun kv => (fst kv, py_slice_to (snd kv) (range_length (fc_rng components r (fst kv)))))
+      (rnd_comps1 r pins (rnd_comps0 r bank pins (upper e d))).
+
 Fixpoint attempts (fuel : nat) (cc : text) (r : row) (bank : option entry) (pins : list (text * text))
                   (draws : list text) : outcome text :=
   match fuel with
@@ -27,35 +56,7 @@ Fixpoint attempts (fuel : nat) (cc : text) (r : row) (bank : option entry) (pins
     match draws with
     | [] => Crash PAssertionError                       (* the harness did not supply enough draws *)
     | d :: rest =>
-      let bban := upper e d in
-      let ranges := map (fun c => (c, position_range r c)) components in
-      let comps0 :=
-        map (fun cr =>
-               let k := fst cr in
-               (k, match assoc k pins with
-                   | Some v => v
-                   | None =>
-                     let from_bank := if text_eqb k k_bank
-                                      then match bank with Some en => e_code en | None => [] end else [] in
-                     match from_bank with
-                     | _ :: _ => from_bank
-                     | [] => match default_for r k with
-                             | Some dv => dv
-                             | None => py_slice bban (fst (snd cr)) (snd (snd cr))
-                             end
-                     end
-                   end)) ranges in
-      let rng c := match assoc c ranges with Some p => p | None => (0, 0)%Z end in
-      let bank_code := get_val k_bank comps0 in
-      let bank_len := range_length (rng k_bank) in
-      let branch_len := range_length (rng k_branch) in
-      let comps1 :=
-        if negb (match assoc k_branch pins with Some _ => true | None => false end)
-           && Z.leb (bank_len + branch_len) (len bank_code)
-        then set_assoc k_branch (py_slice bank_code bank_len (bank_len + branch_len)) comps0
-        else comps0 in
-      let comps2 := map (fun kv => (fst kv, py_slice_to (snd kv) (range_length (rng (fst kv))))) comps1 in
-      match from_components e components T find_algo cc comps2 with
+      match from_components e components T find_algo cc (rnd_comps2 r bank pins d) with
       | Ok b => Ok b
       | Err _ => attempts f cc r bank pins rest
       | Crash c => Crash c
